@@ -82,7 +82,7 @@ func genClientConfig(r *rand.Rand, tokens *[]string) *pb.ClientConfig {
 			se := &pb.ServerEndpoint{PortBindings: genBindings(r)}
 			switch r.Intn(3) {
 			case 0:
-				se.IpAddress = proto.String(pick(r, "12.34.56.78", "2001:db8::1", "::1"))
+				se.IpAddress = proto.String(pick(r, "12.34.56.78", "2001:db8::1", "::1", "::ffff:198.51.100.7"))
 			case 1:
 				se.DomainName = proto.String(pick(r, "example.com", "xn--fsq.example", "a.b.c.d.example.org"))
 			default:
